@@ -1,2 +1,2 @@
 fn main() {}
-// 1dedf6f1
+// 766f6167
